@@ -8,19 +8,24 @@
 
 using namespace verif;
 
+// The hasher returns a 64-bit value: hash_map is documented to work with "any hash function", and a
+// functor whose result does not fit into 32 bits is where the bucket computations of the different
+// operations can disagree.
 struct HashFn {
 	int mode;
-	unsigned int operator()(int k) const {
+	uint64_t operator()(int k) const {
 		switch(mode) {
 		case 0: return (unsigned)k;            // identity
 		case 1: return 7;                      // constant: everything collides
 		case 2: return (unsigned)k & 1;        // low entropy
 		case 3: return (unsigned)k * 10u;      // multiples of the initial capacity
+		case 4: return (uint64_t)k * 0x9E3779B97F4A7C15ull;          // wide: significant bits above bit 31
+		case 5: return (uint64_t)(int64_t)(-(int64_t)k * 7 - 3);       // "negative": all high bits set
 		default: return (unsigned)k * 2654435761u;
 		}
 	}
 };
-static const char *hash_name[] = {"identity", "constant", "lowbit", "times10", "fib"};
+static const char *hash_name[] = {"identity", "constant", "lowbit", "times10", "wide64", "negative", "fib"};
 
 template<class Val>
 struct HmHarness : HarnessBase {
@@ -140,7 +145,7 @@ static std::vector<Instance> mk(const std::string &tier) {
 	bool th = tier == "thorough";
 	std::vector<Instance> v;
 	std::vector<int> fills = {0, 8, 9, 10, 11, 19, 20, 21, 39, 40};
-	int nmodes = th ? 5 : 4;
+	int nmodes = th ? 7 : 6;
 	for(int mode = 0; mode < nmodes; mode++) {
 		for(int f : fills) {
 			BfsOptions o; o.max_depth = th ? 5 : 4;
